@@ -36,7 +36,7 @@ def calls_in(prog, f):
     return out
 
 
-def callees(prog, f, include_args=True):
+def callees(prog, f, include_args=True, backend=None):
     """Package functions f may call (incl. functions passed as arguments, partials, lambdas)."""
     out = []
     seen = set()
@@ -48,12 +48,17 @@ def callees(prog, f, include_args=True):
             seen.add(id(t))
             out.append(t)
         if isinstance(t, BackendTable):
-            for v in t.entries.values():
+            for slot, v in t.entries.items():
+                if backend is not None and SLOTS.get(slot) != backend:
+                    continue
                 add(prog.resolve_callable(t.scope, f.module, v))
 
     for n in f.own_nodes():
         if isinstance(n, ast.Call):
-            add(prog.resolve_callable(f, f.module, n.func))
+            t0 = prog.resolve_callable(f, f.module, n.func)
+            add(t0)
+            if isinstance(t0, tuple) and t0 and t0[0] == 'class' and t0[2].name == 'ArrayTypeFunctionMapping':
+                continue   # the constructor call: entries are followed (per backend) when the table is used
             if include_args:
                 for a in list(n.args) + [k.value for k in n.keywords]:
                     if isinstance(a, (ast.Name, ast.Lambda, ast.Attribute)) or \
@@ -68,7 +73,7 @@ def callees(prog, f, include_args=True):
     return out
 
 
-def reachable(prog, f, maxdepth=8):
+def reachable(prog, f, maxdepth=8, backend=None):
     out = []
     seen = {id(f)}
     work = [(f, 0)]
@@ -77,7 +82,7 @@ def reachable(prog, f, maxdepth=8):
         out.append(g)
         if d >= maxdepth:
             continue
-        for h in callees(prog, g):
+        for h in callees(prog, g, backend=backend):
             if id(h) not in seen:
                 seen.add(id(h))
                 work.append((h, d + 1))
